@@ -447,12 +447,13 @@ def split_plan(lines):
     sched = [l for l in lines if l.startswith('S')]
     return head, params, ops, sched
 
-def shrink(flavour, lines, cls, budget=400, cpu_cap=60):
-    """Greedy/ddmin minimisation keeping the same violation class. Returns (lines, reruns)."""
+def shrink(flavour, lines, cls, budget=400, cpu_cap=60, wall=300):
+    """Greedy/ddmin minimisation keeping the same violation class. Returns (lines, reruns).
+    Bounded by a number of re-runs and by wall-clock time (slow flavours): whatever was reached by then is reported."""
     head, params, ops, sched = split_plan(lines)
-    runs = [0]
+    runs = [0]; t_end = time.time() + wall
     def same(cand_params, cand_ops, cand_sched):
-        if runs[0] >= budget: return False
+        if runs[0] >= budget or time.time() > t_end: runs[0] = max(runs[0], budget); return False
         runs[0] += 1
         d = run_plan(flavour, head + cand_params + cand_ops + cand_sched, cpu_cap=cpu_cap)
         return d['status'] == 'VIOL' and d['cls'] == cls
@@ -491,13 +492,14 @@ def shrink(flavour, lines, cls, budget=400, cpu_cap=60):
     params = shrink_ints(params, True)
     return head + params + ops + sched, runs[0]
 
-def shrink_schedule(flavour, lines, cls, trace, budget=150, cpu_cap=60):
+def shrink_schedule(flavour, lines, cls, trace, budget=150, cpu_cap=60, wall=180):
     """Make the schedule explicit (S line) and zero out decision chunks (0 = stay on the current thread)."""
     head, params, ops, _ = split_plan(lines)
     dec = [int(x) for x in trace.split()] if trace else []
     if not dec: return lines, 0
-    runs = [0]
+    runs = [0]; t_end = time.time() + wall
     def same(d):
+        if time.time() > t_end: runs[0] = max(runs[0], budget); return False
         runs[0] += 1
         r = run_plan(flavour, head + params + ops + ['S ' + ' '.join(map(str, d))], cpu_cap=cpu_cap)
         return r['status'] == 'VIOL' and r['cls'] == cls
